@@ -217,7 +217,7 @@ def run_jobs(report, jobs, keep, procs=None, keeps=None):
             report.replayed += stats["edges"]
             for key in ("confluent", "fresh", "queries", "rejects", "clones", "states"):
                 report.count("cf." + key, stats[key])
-            for key in ("fresh_interpreter", "queried_representatives", "path_edges", "clone_internal_only", "predict_around", "path_clones"):
+            for key in ("fresh_interpreter", "queried_representatives", "path_edges", "clone_internal_only", "predict_around", "path_clones", "locality"):
                 if stats.get(key):
                     report.count("cf." + key, stats[key])
             for op, n in stats["ops"].items():
